@@ -66,6 +66,20 @@ func ruleDET1(c *Ctx) {
 									c.ok(rule, fmt.Sprintf("%s/call(%s)", funcKey(pk, fd), fullName(fn)), p.Pos(x.Pos()), "the keys are collected by slices.Sorted: ordered by the keys' natural order")
 									return true
 								}
+							case "slices.Collect", "slices.AppendSeq":
+								// keys := slices.Collect(maps.Keys(m)) followed at once by a sort of keys
+								fpar := parents(fd)
+								if as, ok := fpar[pc].(*ast.AssignStmt); ok && len(as.Lhs) == 1 && len(as.Rhs) == 1 {
+									list := enclosingList(fpar, as)
+									for i, st := range list {
+										if st == ast.Stmt(as) && i+1 < len(list) {
+											if okUse, how := orderingUse(c, info, list[i+1], as.Lhs[0]); okUse {
+												c.ok(rule, fmt.Sprintf("%s/call(%s)", funcKey(pk, fd), fullName(fn)), p.Pos(x.Pos()), "collected into %s and at once ordered: %s", exprString(as.Lhs[0]), how)
+												return true
+											}
+										}
+									}
+								}
 							}
 						}
 						c.bad(rule, fmt.Sprintf("%s/call(%s)", funcKey(pk, fd), fullName(fn)), p.Pos(x.Pos()),
